@@ -535,7 +535,14 @@ pub fn execute_l2(sc: &Scenario, mode: Mode, tag: &str, mut trace: Option<&mut V
     // simulated editor itself races with the server and the client's model of the server's inputs
     // is wrong — a harness artefact, found at seed 600)
     let reads_disk = matches!(planned_labels.as_slice(), l if l.iter().any(|x| x == "didCreateFiles"));
-    if is_mutation && (mode != Mode::C11 || fifo || reads_disk || plan_rng.chance(1, 3)) {
+    // C10: change notifications carry their text, so several of them may be in flight together
+    // (the server has to handle notifications in the order sent); the comparison with a fresh
+    // server happens at the next barrier, for the world after all of them
+    let only_did_change = !planned_labels.is_empty() && planned_labels.iter().all(|x| x.starts_with("didChange"));
+    let c10_pipelined = mode == Mode::C10 && !fifo && only_did_change && plan_rng.chance(1, 2);
+    if c10_pipelined {
+      stats.inc("l2_change_notifications_in_flight_together");
+    } else if is_mutation && (mode != Mode::C11 || fifo || reads_disk || plan_rng.chance(1, 3)) {
       script.push_back((Vec::new(), Step::Barrier { check: true, label: format!("after {}", op.kind()) }));
     } else if is_mutation {
       // C11: notifications and requests are pipelined freely (a writer queued between two readers
@@ -545,7 +552,7 @@ pub fn execute_l2(sc: &Scenario, mode: Mode, tag: &str, mut trace: Option<&mut V
       script.push_back((Vec::new(), Step::Barrier { check: false, label: "drain".into() }));
     }
   }
-  script.push_back((Vec::new(), Step::Barrier { check: false, label: "before shutdown".into() }));
+  script.push_back((Vec::new(), Step::Barrier { check: mode == Mode::C10, label: "before shutdown".into() }));
   sess.request("shutdown", Value::Null, "shutdown");
   for s in sess.steps.split_off(0) {
     script.push_back((Vec::new(), s));
@@ -1027,7 +1034,7 @@ pub fn execute_l2(sc: &Scenario, mode: Mode, tag: &str, mut trace: Option<&mut V
 }
 
 pub fn declare_counters(ev: &mut simcore::report::Evidence) {
-  ev.faults_fired.declare(&["l2_short_reads", "l2_short_writes", "l2_transport_stalls", "l2_frame_sent_in_pieces", "l2_did_create_files", "l2_did_rename_files", "l2_did_delete_files", "l2_delete_of_file_unknown_to_server", "l2_requests", "l2_notification_pipelined_with_requests"]);
+  ev.faults_fired.declare(&["l2_short_reads", "l2_short_writes", "l2_transport_stalls", "l2_frame_sent_in_pieces", "l2_did_create_files", "l2_did_rename_files", "l2_did_delete_files", "l2_delete_of_file_unknown_to_server", "l2_requests", "l2_notification_pipelined_with_requests", "l2_change_notifications_in_flight_together"]);
   ev.probes.declare(&["l2_messages_sent", "l2_error_responses", "l2_sessions_with_pipelining", "l2_sessions_completed_cleanly", "l2_quiescent_comparisons", "l2_actions_requested", "l2_actions_checked", "l2_actions_applied"]);
 }
 
